@@ -160,7 +160,7 @@ def rule_f3(chk: Check, ix: Index):
     # operators in ordinary scanning: the paths of next_psuedo_matches that a given operator lexeme can take (tests on the token
     # text are evaluated for it, tests on the scanner state split the cases) and the mode/depth effects performed on them
     g = ix.get("next_psuedo_matches")
-    from ..pyflow import stmt_paths
+    from ..pyflow import stmt_paths, propagate_locals
     import types as _types
     F = constfold.fold_tokenize()
     from ..fprogs import inline_state_flags
@@ -204,6 +204,7 @@ def rule_f3(chk: Check, ix: Index):
             bad[kind] = (t, "no path of the operator branch accepts it")
             continue
         for p in mine:
+            p = propagate_locals(p)
             conds = {x[1]: x[2] for x in p if x[0] == "cond"}
             inside = conds.get("state.in_braces()") is True and conds.get("state.at_parenlev()") is True
             outside = conds.get("state.in_braces()") is False or conds.get("state.at_parenlev()") is False
